@@ -394,7 +394,8 @@ def run_formats(case, o: Oracle) -> None:
             img_mem = {base + i: want[i] for i in range(n)}
             detail = _diff_mem(mem, want_mem, img_mem)
             o.check(sub, not detail, "file_content", detail)
-        file_mem = mem if mem else want_mem
+        # the loader is judged against what the file holds (so that a writer fault is not reported twice), unless that is garbage
+        file_mem = mem if mem and base <= min(mem) and max(mem) < base + n else want_mem
         lo, hi = min(file_mem), max(file_mem)
         loaded_want = bytearray(P.pattern_block(lpat, hi - lo + 1))
         for a, b in file_mem.items():
